@@ -51,7 +51,9 @@ def k_batch(N=3, G=1, mode="both", states=2, max_est=10000, sym_np=True, shapes=
         def append_result(self, r):
             W["appended"].append(r)
 
-    hs.ResultsAggregator.load = classmethod(lambda cls, output: _Agg())
+    from jade.jobs.results_aggregator import ResultsAggregator  # patched on the class: independent of import style
+
+    ResultsAggregator.load = classmethod(lambda cls, output: _Agg())
 
     def _check_statuses(self):
         W["squeue"] += 1
